@@ -1107,6 +1107,7 @@ func schedOracles(sr *schedRun, obs string) (vs []h.Violation) {
 				}
 				if contiguous && indexed && sb["disc"] == "0" && sb["ready"] == "1" && a+len(stream) != len(F) {
 					vs = append(vs, h.Violation{Key: "C06:connected-subscriber-missed-an-update", What: fmt.Sprintf("subscriber %d is connected and ready but its stream %v stops before the end of the matching history %v", si, stream, F)})
+					vs = append(vs, h.Violation{Key: "C05:accepted-update-not-handed-to-a-connected-matching-subscriber", What: fmt.Sprintf("subscriber %d is connected, ready and matches, but its stream %v stops before the end of the matching accepted updates %v", si, stream, F)})
 				}
 			}
 		}
